@@ -624,7 +624,60 @@ def ifclear(r):
     return s
 
 
-GENS = {"ifclear": ifclear, "framealias": framealias, "runwalk": runwalk, "scanclear": scanclear, "stridescan": stridescan, "emptyspin": emptyspin, "deepnest": deepnest, "mulcounter": mulcounter, "tailloop": tailloop, "loopio": loopio, "shiftif": shiftif, "ifnest": ifnest, "uniform": uniform, "nestuse": nestuse, "longrun": longrun, "iopressure": iopressure, "squares": squares, "macro": macro, "pressure": pressure, "affine": affine, "bigconst": bigconst,
+def gvnif(r):
+    """a sum or product of two cells computed inside an `if` and again after it, the two operand cells having
+    been used (in either order) before the `if` and again after the second computation: a value that exists only
+    on one path must not be reused after the join point"""
+    c, a, b = 0, 1, 3
+    d1, d2, d3, d4, d5 = r.sample([2, 4, 5, 8, 9], 5)
+    s = at(c, r.choice([',', ',', '', '+'])) + at(a, ',') + at(b, ',')
+    first, second = (b, a) if r.below(2) else (a, b)
+    # the earlier uses are real computations (a multiple of the cell), so that the operand values are numbered in this order
+    s += copy_add(first, d4, k=r.randint(2, 3)) + at(d4, '.') + copy_add(second, d5, k=r.randint(2, 3)) + at(d5, '.')
+
+    def combine(dst):
+        if r.below(3) == 0:
+            return mul_into(a, b, dst)
+        x, y = (a, b) if r.below(2) else (b, a)
+        return copy_add(x, dst) + copy_add(y, dst)
+    s += mv(c) + '[' + mv(-c) + combine(d1) + at(d1, r.choice(['', '.'])) + mv(c) + '[-]]' + mv(-c)
+    s += combine(d2)
+    s += copy_add(a, d3) + copy_add(b, d3, k=r.randint(1, 2))
+    s += at(d1, '.') + at(d2, '.') + at(d3, '.')
+    return s
+
+
+def scancond(r):
+    """a loop whose body contains a pointer-moving inner loop (scan) and, after it, a loop or `if` on the same
+    block-relative offset as the outer loop's own condition — after the scan that offset names another cell,
+    which is zero in some runs: nothing known about the outer condition may be used for it (halting programs
+    that would diverge if the inner loop were entered, and the reverse)"""
+    n = r.randint(2, 4)
+    s = ''.join(r.choice(['+', '++', ',', '', '+']) + '>' for _ in range(n)) + '<' * n
+    fw, bw = ('>', '<') if r.below(4) else ('<', '>')
+    inner = r.choice(['[-]+', '.', '[-]', '-', '.[-]', '+', '.-'])
+    scan = r.choice(['[' + fw + ']', '[' + fw * 2 + ']', '[' + fw + ']' + fw])
+    pre = r.choice(['-', '-', '[-]', '-.', ''])
+    a = r.randint(1, 2)
+    s += r.choice(['+', '', ',']) + '[' + pre + fw * a + scan + bw * a + '[' + inner + ']' + r.choice(['', '', bw, '-']) + ']'
+    s += r.choice(['+++.', '+[.]', '.', '+.>.', '++.<.'])
+    return s
+
+
+def subconst(r):
+    """a do-while loop without net pointer movement and with a data-dependent trip count that stores a constant
+    into a cell and prints it, and after the loop that cell subtracted from / added to a value that is not
+    known at compile time: the bytecode generator still knows the constant the optimiser has forgotten"""
+    k = r.randint(1, 5)
+    c = r.choice(['+' * k, '-' * k, '+' * (k + 120)])
+    body = r.choice(['>[-]' + c + '.<,', '>[-]' + c + '.<-', '>>[-]' + c + '.<<,', '>[-]' + c + '.>[-]+.<<,'])
+    s = r.choice(['+', ',', '++']) + '[' + body + ']'
+    op = r.choice(['[->-<]', '[->+<]', '[->--<]', '[->-<]'])
+    s += '>>' + r.choice([',', ',', '+++']) + '<' + op + '>.' + r.choice(['', '<.', '>.'])
+    return s
+
+
+GENS = {"scancond": scancond, "subconst": subconst, "gvnif": gvnif, "ifclear": ifclear, "framealias": framealias, "runwalk": runwalk, "scanclear": scanclear, "stridescan": stridescan, "emptyspin": emptyspin, "deepnest": deepnest, "mulcounter": mulcounter, "tailloop": tailloop, "loopio": loopio, "shiftif": shiftif, "ifnest": ifnest, "uniform": uniform, "nestuse": nestuse, "longrun": longrun, "iopressure": iopressure, "squares": squares, "macro": macro, "pressure": pressure, "affine": affine, "bigconst": bigconst,
         "roam": roam, "diverge": diverge}
 
 
